@@ -634,6 +634,57 @@ func c20TeeSplit(c *Ctx, r *Report) {
 	}
 	r.Check(relays == "" && outDone != nil, "R20.6", "tee does not relay downstream-done", c.Rel(tee.Pos()), "the upstream done channel is never sent on or handed out", "tee forwards the downstream-done signal upstream at "+relays+": with 'tee file then head' the reader stops early and the tee'd file is incomplete")
 
+	// the chain runner must leave the relay decision to the verb: it may hand the
+	// upstream done channel only to Transform / ProduceStream (and to its own batch
+	// helper) and may signal on it itself only after a failed batch
+	for _, name := range []string{"runSingleTransformer", "runSingleTransformerBatch"} {
+		f := c.SSAFunc(c.LookupFunc("pkg/transformers", name))
+		if f == nil {
+			r.Undecided("R20.6", name, "", "anchor not found")
+			continue
+		}
+		od := paramOfType(f, chanElemIsBool, types.SendOnly, 0)
+		bad := ""
+		for _, b := range f.Blocks {
+			for _, in := range b.Instrs {
+				switch x := in.(type) {
+				case *ssa.Call:
+					for _, a := range x.Call.Args {
+						if od != nil && sameChan(a, od) {
+							ok := x.Call.IsInvoke() && (x.Call.Method.Name() == "Transform" || x.Call.Method.Name() == "ProduceStream")
+							if cal := x.Call.StaticCallee(); cal != nil && cal.Name() == "runSingleTransformerBatch" {
+								ok = true
+							}
+							if !ok {
+								bad = c.Rel(x.Pos()) + ": hands the upstream done channel to " + CalleeName(&x.Call)
+							}
+						}
+					}
+				case *ssa.Send:
+					if od != nil && sameChan(x.Chan, od) {
+						bad = c.Rel(x.Pos()) + ": sends on the upstream done channel"
+					}
+				case *ssa.Select:
+					for _, st := range x.States {
+						if st.Dir == types.SendOnly && od != nil && sameChan(st.Chan, od) {
+							failed := false
+							for _, g := range GuardsAt(b) {
+								if _, nonNil, ok := ErrCheck(g.Cond); ok && nonNil == g.Polarity {
+									failed = true
+								}
+							}
+							if !failed {
+								bad = c.Rel(x.Pos()) + ": signals upstream outside the failed-batch path"
+							}
+						}
+					}
+				}
+			}
+		}
+		r.Check(bad == "" && od != nil, "R20.6", name+": leaves the done relay to the verb", c.Rel(f.Pos()), "the upstream done channel only reaches Transform/ProduceStream, or is signalled after a failed batch",
+			"the chain runner relays downstream-done on behalf of every verb ("+bad+"): tee's deliberate refusal to relay is bypassed, so 'tee file then head' stops the reader early and the tee'd file is truncated")
+	}
+
 	// every verb function that hands records to an output handler
 	var writers []*ssa.Function
 	tp := c.Pkg("pkg/transformers")
